@@ -28,7 +28,7 @@ func TestVerifC18(t *testing.T) {
 		Assumptions: []string{"race detector on", "at quiescence the receive loop legitimately holds one page tagged with the next, not yet assigned order id"},
 		Units: func(tier vfTier, seed uint64) int {
 			if tier == vfThorough {
-				return 320
+				return 3200
 			}
 			return 16
 		},
